@@ -1,7 +1,7 @@
 #!/bin/bash
 # tools/thorough-all.sh - runs the thorough tier of every registered check once (cheapest first), one line per check
 cd "$(dirname "$0")/.."
-for c in C05 C16 C18 C19 C10 C13 C06 C20 C08 C04 C02 C17 C03 C15 C09 C07 C14 C11 C01 C12; do
+for c in C16 C06 C18 C19 C05 C13 C10 C08 C02 C04 C11 C15 C03 C01 C09 C20 C17 C07 C14 C12; do
   s=$(date +%s); out=$(bin/check $c --tier thorough 2>&1); rc=$?
   echo "== $c rc=$rc $(( $(date +%s)-s ))s"; echo "$out" | grep -E "VIOLATION|key=|tier=|BROKEN|INCONCLUSIVE|KNOWN|HARNESS" | cut -c1-220 | head -12
 done
